@@ -159,8 +159,8 @@ CHECKS = {
                 "planners lies in B, for every API history (invariant: every stored node is in B). Real-model space theorems: boxes are convex "
                 "under linear interpolation; SO(2) intervals of span <= PI are convex under short-arc interpolation. The property as stated "
                 "('intervals of any span, rotation cones') is FALSE of the code: C04_refuted_so2_span_gt_pi and C04_refuted_so3_cone are proved "
-                "witnesses; the SO(2) class is reproduced on the real planners (known finding). NOT proved: convexity of SO(3) cones of radius "
-                "< PI/2. Direct oracles: satisfies_bounds (+1e-9) on every state of every real path; at the level of one space, interpolation "
+                "witnesses; the SO(2) class is reproduced on the real planners (known finding). SO(3) cones of radius < PI/2 are proved convex "
+                "under both branches of the library's interpolation (SLERP and normalised LERP, with the q / -q sign choice). Direct oracles: satisfies_bounds (+1e-9) on every state of every real path; at the level of one space, interpolation "
                 "between two in-bounds states of a box / SO(2) interval of span <= PI stays inside (grid of interval ends incl. exact "
                 "half-turn ties + random), with the float interpolation tied bit-for-bit to the model.",
         "design_ref": "DESIGN.md section 7 C04, section 8 row 4",
